@@ -132,6 +132,9 @@ func discharge(dir string, idx int, vc *VC, o *Obligation, timeoutS int, waitAll
 	if o.Static {
 		return
 	}
+	if o.Expect == "sat" && timeoutS > 3 {
+		timeoutS = 3 // vacuity covers only need "not refuted quickly"
+	}
 	q := queryText(vc, o)
 	file := filepath.Join(dir, fmt.Sprintf("q%05d.smt2", idx))
 	if err := os.WriteFile(file, []byte(q), 0o644); err != nil {
